@@ -40,7 +40,7 @@ def handle (j : Json) : Except String Json := do
       ("missing", pairs (missing f r)),
       ("wf", Json.bool (decide (WellFormed f r))),
       ("classKnown", match kwSfx r.kw with
-                      | .cls c => Json.bool (!(residuesOfClass f c).isEmpty)
+                      | .cls _ => Json.bool (!(classUnknown f r))
                       | _ => Json.null),
       ("addressed", Json.arr (r.atoms.map fun t =>
           if addressable t then ofNats (addressed f r t) else Json.null).toArray)]
